@@ -123,7 +123,7 @@ Qed.
 
 Lemma prov_authorize_par cfg s cp uri a : prov (src s) (st s) (st (fst (authorize_par cfg s cp uri a))).
 Proof.
-  unfold authorize_par.
+  rewrite ?authorize_par_fst; unfold authorize_par0.
   destruct (key_of s uri) as [k|]; [|apply prov_refl].
   destruct (par (st s) k) as [pr|]; [|apply prov_refl].
   destruct (before _ _); [apply prov_eq_tables; reflexivity|].
@@ -453,7 +453,7 @@ Proof.
     destruct (revoke_lookup s (key_of s tok) h) as [r|]; [|gr].
     destruct (negb (Nat.eqb (r_client r) c)); gr.
   - match goal with |- context [push cfg s ?x1 ?x2 ?x3 ?x4] => destruct (push_tables cfg s x1 x2 x3 x4) as [_ [_ [_ [_ [_ [Hr [Hk Hl]]]]]]] end. repeat split; assumption.
-  - unfold authorize_par.
+  - rewrite ?authorize_par_fst; unfold authorize_par0.
     destruct (key_of s uri) as [k|]; [|gr].
     destruct (par (st s) k) as [pr|]; [|gr].
     repeat match goal with |- context [if ?c then fail _ _ else _] => destruct c; [gr|] end.
@@ -571,7 +571,7 @@ Proof.
     destruct (negb (Nat.eqb (r_client r) c)); [reflexivity|]. cbn. now rewrite ?revoke_access_device, ?revoke_refresh_device.
   - apply dev_keeps_eq.
     match goal with |- context [push cfg s ?x1 ?x2 ?x3 ?x4] => destruct (push_tables cfg s x1 x2 x3 x4) as [_ [_ [_ [Hd _]]]] end. assumption.
-  - apply dev_keeps_eq. unfold authorize_par.
+  - apply dev_keeps_eq. rewrite ?authorize_par_fst; unfold authorize_par0.
     destruct (key_of s uri) as [k|]; [|reflexivity].
     destruct (par (st s) k) as [pr|]; [|reflexivity].
     repeat match goal with |- context [if ?c then fail _ _ else _] => destruct c; [reflexivity|] end.
